@@ -10,6 +10,7 @@ import XtModel.Model.Faults
 import XtModel.Model.Json
 import XtModel.Model.MsgpackSize
 import XtModel.Model.MsgpackCodec
+import XtModel.Model.CliWire
 
 /-!
 Native driver: one case per input line, one answer per output line
@@ -496,6 +497,8 @@ def answer (fs : List String) : String :=
   | "frame" :: _ | "tomlout" :: _ => output fs
   | "json" :: _ | "jsonstr" :: _ | "jsonnum" :: _ | "jsondetect" :: _ => json fs
   | "msgsize" :: _ | "msgclass" :: _ | "msgconst" :: _ | "msgdecode" :: _ | "msgdec1" :: _ => MP.msgpack fs
+  | "cli" :: _ | "noflush" :: _ | "plan" :: _ | "ext" :: _ | "stdinpath" :: _ | "fmtname" :: _ | "pipecheck" :: _
+  | "lexopt" :: _ => Xt.CliWire.answer fs
   | _ => "bad-engine"
 
 partial def loop (h : IO.FS.Stream) (out : IO.FS.Stream) : IO Unit := do
@@ -506,6 +509,7 @@ partial def loop (h : IO.FS.Stream) (out : IO.FS.Stream) : IO Unit := do
   | [_] => out.putStrLn "bad-line"; loop h out
   | eng :: id :: rest =>
     out.putStrLn (id ++ " " ++ answer (eng :: rest))
+    out.flush
     loop h out
 
 end Drv
